@@ -246,6 +246,7 @@ def run(tier):
     recs += pc.run_programs(d, "alltests", repo[:1], ["raw", 0, 31] if tier == "quick" else ["raw", 0, 8, 23, 31] + PASSES, jobs=1)
     # many more loop programs under the reference, the shipped configuration and the loop pass alone (cheap: three builds)
     wide = pc.generated_programs(d, 240 if tier == "quick" else 4000, SEED + 22, "loops")
+    wide += pc.corpus_dir_programs("c01") + pc.corpus_dir_programs("c04")    # the hand-written feature programs of C01 / C04
     recs += pc.run_programs(d, "wide", wide, ["raw", 31, "pass:ccp+loop"], jobs=14)
     fails += pc.judge_obs(PID, "ObsC02.cfg", recs, "c02", "repository + generated programs", stats, d)
     log(f"[c02] program phase done at {time.time()-t0:.0f}s")
